@@ -108,7 +108,7 @@ struct Attrs : Profile {
     {
         return {"replace", "replace-type-change", "large-attr", "prefix-names", "dim-attr", "dimscale", "cal", "range", "datastrs",
                 "gr-attr", "vs-attr", "vsfield-attr", "vg-attr", "restart", "restart-write", "dim-renamed-with-metadata", "dimscale-retype-refused",
-                "dimscale-retype-accepted"};
+                "dimscale-retype-accepted", "dimname-prefix-family"};
     }
 
     Plan generate(Rng &rng, bool thorough, uint64_t) override
@@ -531,6 +531,23 @@ struct Attrs : Profile {
         }
     }
 
+    // A name for a dimension that no other dimension has.  Half of the names come from a family in which every name is
+    // a proper prefix of the next ("nest", "nesta", "nestab", ...): a lookup that compares a prefix only, or the shorter
+    // length only, takes one dimension for another.  Equal names are never produced (an equal name and an equal size
+    // mean "share the dimension", which is another operation).
+    std::string fresh_dimname(S &s, const std::string &unique, int64_t sel)
+    {
+        if (modn(sel, 2) == 0)
+            return unique;
+        std::string nm = "nest" + std::string("abcdefghijkl").substr(0, (size_t)modn(sel / 2, 12));
+        for (auto &d : s.sds)
+            for (int dn = 0; dn < 2; dn++)
+                if (d.dimname[dn] == nm)
+                    return unique;
+        s.ctx.probe("dimname-prefix-family");
+        return nm;
+    }
+
     void execute(Ctx &ctx) override
     {
         S           s(ctx);
@@ -613,9 +630,9 @@ struct Attrs : Profile {
                     int32 id  = SDcreate(s.sd, strf("var%d", di).c_str(), ATS[d.nt].code, d.rank, d.dims);
                     if (id == FAIL)
                         ctx.fail("create-refused", "create-refused:sds", "SDcreate failed");
-                    // distinct dimension names: no sharing between datasets
+                    // distinct dimension names: no sharing between datasets (some names are prefixes of others)
                     for (int dn = 0; dn < d.rank; dn++) {
-                        d.dimname[dn] = strf("dim_%d_%d_%d", di, dn, s.uniq++);
+                        d.dimname[dn] = fresh_dimname(s, strf("dim_%d_%d_%d", di, dn, s.uniq++), o.arg(2) * 7 + o.arg(3) + dn * 5);
                         if (SDsetdimname(SDgetdimid(id, dn), d.dimname[dn].c_str()) == FAIL)
                             ctx.fail("dimname-refused", "dimname-refused:new", "SDsetdimname on a new dataset failed");
                     }
@@ -711,7 +728,7 @@ struct Attrs : Profile {
                         if (k == "dimname") {
                             if (d.scale[dn] || !d.dimattrs[dn].at.empty())
                                 ctx.probe("dim-renamed-with-metadata"); // used to be guarded: repaired (findings/fixed)
-                            std::string nn = strf("dim_%d_%d_%d_r%d", di, dn, s.uniq++, (int)o.arg(2));
+                            std::string nn = fresh_dimname(s, strf("dim_%d_%d_%d_r%d", di, dn, s.uniq++, (int)o.arg(2)), o.arg(2) + o.arg(3));
                             if (SDsetdimname(dim, nn.c_str()) == FAIL)
                                 ctx.fail("dimname-refused", "dimname-refused", "SDsetdimname failed");
                             d.dimname[dn] = nn;
